@@ -68,6 +68,9 @@ func enumerate(t *explore.T, cfgs []wops.Cfg, depth int) {
 		}
 		S := w.Size()
 		alpha := append(wops.Alphabet(S), wops.Op{Kind: "Reset"})
+		if c.Ext {
+			alpha = append(alpha, wops.Op{Kind: "SetExtensions-again"})
+		}
 		var rec func(h []wops.Op)
 		rec = func(h []wops.Op) {
 			hh := append([]wops.Op{}, h...)
@@ -103,7 +106,7 @@ func main() {
 				enumerate(t, configs([]int{3, 9, 127, 128, 131, 132}), 4)
 			}
 			t.Outcome("well-formed")
-			t.Note(fmt.Sprintf("6 constructors x sizes {3,4,9,16,123..133} x side x DisableFlush x extension (state carrying the extended/fragmented bits); every history of <=3 ops (<=%d on sizes 3,9,127,128,131,132) over the %d-op alphabet {Write 0/1/S-1/S/S+1/2S+1, ReadFrom 0/S/2S+1 from sources delivering all at once / byte-wise / data together with EOF, ReadFrom S+1 from a *bytes.Reader, ReadFrom from sources that fail after or together with 3 (S+2) bytes, WriteThrough 0/1/S+1, FlushFragment, Flush, Grow 1/S/4S, Reset to a new destination of the other side} + closing Flush; all clauses checked after every call", D, len(wops.Alphabet(16))+1))
+			t.Note(fmt.Sprintf("6 constructors x sizes {3,4,9,16,123..133} x side x DisableFlush x extension (state carrying the extended/fragmented bits); every history of <=3 ops (<=%d on sizes 3,9,127,128,131,132) over the %d-op alphabet {Write 0/1/S-1/S/S+1/2S+1, ReadFrom 0/S/2S+1 from sources delivering all at once / byte-wise / data together with EOF, ReadFrom S+1 from a *bytes.Reader, ReadFrom from sources that fail after or together with 3 (S+2) bytes, WriteThrough 0/1/S+1, FlushFragment, Flush, Grow 1/S/4S, Reset to a new destination of the other side, and for writers with an extension SetExtensions with the same (bit-owning, hence not idempotent) extension again} + closing Flush; all clauses checked after every call", D, len(wops.Alphabet(16))+1))
 		})
 		r.Part("E2-large-buffers", func(t *explore.T) {
 			D := t.Pick(2, 3)
@@ -179,7 +182,9 @@ func main() {
 			// second writer alive at the same time
 			for _, client := range []bool{false, true} {
 				client := client
-				t.Do(func() string { return fmt.Sprintf("GetWriter/PutWriter cycles sharing one extension list, client=%v", client) }, func() *explore.Fail {
+				t.Do(func() string {
+					return fmt.Sprintf("GetWriter/PutWriter cycles sharing one extension list, client=%v", client)
+				}, func() *explore.Fail {
 					st := ws.StateServerSide
 					if client {
 						st = ws.StateClientSide
